@@ -44,7 +44,8 @@ def bounds(tier):
         "samples": 3, "annotators": 2, "label_matrices": "all 64 missing patterns x 2 fillings (default mode); 4 matrices for explicit modes",
         "annotator_specs": "None; index subsets [0],[1],[0,1]; all boolean matrices", "candidate_specs": "None; all non-empty index subsets; "
         "feature rows of subsets (+ foreign row)", "batch_sizes": "1..min(pairs+1, 5)" if q else "1..pairs+1",
-        "n_annotators_per_sample": [1, 2] if q else [1, 2, 3], "deviation_bound": 1, "A_perf": ["[0.5,0.5] (ties)", "None (seeded random)"]}
+        "n_annotators_per_sample": [1, 2, [2], [1, 2]] if q else [1, 2, 3, [2], [1, 2], [2, 1, 1, 1, 1, 1, 1]],
+        "n_annotators_per_sample_note": "lists are per-rank preferences (the last entry is repeated); for them the per-sample count oracle is not applied", "deviation_bound": 1, "A_perf": ["[0.5,0.5] (ties)", "None (seeded random)"]}
 
 
 def subjects(tier):
@@ -200,7 +201,7 @@ def judge(idx, U, avail, bs, n_rows, m, nps, avail_per_row):
             if pairs[i] in sel and pairs[i] in nanpos:
                 out.append(("selected_pair_has_nan_utility", "step %d: selected pair %s has NaN utility" % (i, pairs[i],)))
                 break
-    if nps is not None and not bad and len(pairs) == k:
+    if nps is not None and not isinstance(nps, (list, tuple)) and not bad and len(pairs) == k:
         cnt = {}
         for r, a in pairs:
             cnt[r] = cnt.get(r, 0) + 1
@@ -266,7 +267,7 @@ def run_case(acc, name, y, cand, annot, bs, nps, a_perf, bound):
     else:
         cand_arg, n_rows = (None if cand is None else np.array(cand)), len(X)
     avail = available_pairs(y, cand, annot, n_rows if isinstance(cand, tuple) else None)
-    key = (name, y.tobytes(), repr(cand), None if annot is None else (annot.shape, str(annot.dtype), annot.tobytes()), bs, nps, repr(a_perf))
+    key = (name, y.tobytes(), repr(cand), None if annot is None else (annot.shape, str(annot.dtype), annot.tobytes()), bs, repr(nps), repr(a_perf))
     trivial = len(avail) == 0
     is_iet = name == "IntervalEstimationThreshold"
     avail_per_row = {}
@@ -330,6 +331,8 @@ def run_shard(spec):
             maxbs = min(maxbs, 5)
         for bs in range(1, maxbs + 1):
             for nps in ([None] if is_iet else b["n_annotators_per_sample"]):
+                if isinstance(nps, list) and bs < 2:
+                    continue  # with a single pair a per-rank preference list is the same as its first entry
                 for a_perf in ([None] if is_iet else ([0.5, 0.5], None) if (i % 3 == 0) else ([0.5, 0.5],)):
                     run_case(acc, name, y, cand, annot, bs, nps, a_perf, b["deviation_bound"])
         if i % 97 == 0:
@@ -352,7 +355,7 @@ def replay(spec):
     if annot is not None:
         annot = np.asarray(annot)
         annot = (annot.astype(int) if spec.get("int_matrix") else annot.astype(bool)) if annot.ndim == 2 else annot.astype(int)
-    nps = None if spec["nps"] is None else int(spec["nps"])
+    nps = None if spec["nps"] is None else ([int(v) for v in spec["nps"]] if isinstance(spec["nps"], (list, tuple)) else int(spec["nps"]))
     run_case(acc, spec["strategy"], y, cand, annot, int(spec["bs"]), nps, spec["a_perf"], 1)
     return [(s, k) for (s, k, _p) in acc.groups]
 
@@ -370,17 +373,20 @@ def check_order_transparency(acc, inner, tier):
         unl_rows = [i for i in range(n) if np.isnan(y[i]).any()]
         if not unl_rows:
             continue
-        for k in range(1, len(unl_rows) + 1):
-            key = ("saw-order", inner.name, pat, k)
+        n_pairs = int(np.isnan(y).sum())
+        for k, nps in [(k, 1) for k in range(1, len(unl_rows) + 1)] + [(k, 2) for k in range(2, n_pairs + 1)]:
+            if nps == 2 and any(not np.isnan(y[i]).any() for i in range(n)) and tier == "quick" and k > 4:
+                continue
+            key = ("saw-order", inner.name, pat, k, nps)
             acc.case(key)
             saw = SingleAnnotatorWrapper(inner.make(0), random_state=0)
             kw = inner.query_kwargs(X)
-            o = run_query(saw, None, X, y, None, None, k, 1, [0.5, 0.5], T.Tape(), watch=False, inner=inner)
+            o = run_query(saw, None, X, y, None, None, k, nps, [0.5, 0.5], T.Tape(), watch=False, inner=inner)
             acc.transitions += 1
             # reference: inner strategy on the aggregated labels, same candidates, same tape
             from skactiveml.utils import majority_vote
 
-            wit = {"wrapper": "SingleAnnotatorWrapper", "inner": inner.name, "X": X.tolist(), "y": y.tolist(), "batch_size": k}
+            wit = {"wrapper": "SingleAnnotatorWrapper", "inner": inner.name, "X": X.tolist(), "y": y.tolist(), "batch_size": k, "n_annotators_per_sample": nps}
             rep = {"what": "saw", "inner": inner.name, "pool": "line4"}
             if o[0] != "ok":
                 acc.violation("SingleAnnotatorWrapper", "wrapper_fails", "%s" % (o[1],), wit, {}, rep, k)
@@ -390,14 +396,15 @@ def check_order_transparency(acc, inner, tier):
                 warnings.simplefilter("ignore")
                 y_agg = majority_vote(y, random_state=np.random.RandomState(0))
                 # ties in the aggregation are avoided by construction (at most 2 annotators with fillings that agree per row or single labels)
-                ref = PR.run_query(inner, X, y_agg, np.array(unl_rows), k, T.Tape(), "substitute", kw=kw, qs=inner.make(0))
+                ref = PR.run_query(inner, X, y_agg, np.array(unl_rows), min(k, len(unl_rows)), T.Tape(), "substitute", kw=kw, qs=inner.make(0))
             acc.transitions += 1
             if ref[0] != "ok":
                 continue
             acc.traces_validated += 1
             got = [int(r) for r in o[1][:, 0]]
             exp = [int(i) for i in np.asarray(ref[1]).ravel()]
-            # with one annotator per sample the k pairs come from the first samples of the inner ranking, in order
+            # the pairs come from the first samples of the inner ranking, in order (each sample contributes up to n_annotators_per_sample pairs,
+            # more only when the batch cannot be filled otherwise)
             dedup = [r for i, r in enumerate(got) if r not in got[:i]]
             if dedup != exp[:len(dedup)]:
                 acc.violation("SingleAnnotatorWrapper", "sample_order_differs", "wrapper picks samples %s, the wrapped strategy ranks %s (same tape)" % (got, exp),
